@@ -185,7 +185,11 @@ impl S3 for FileSystem {
 
         let mut deleted_objects: Vec<DeletedObject> = Vec::new();
         for (path, key) in objects {
-            try_!(fs::remove_file(path).await);
+            // a key named twice in one request is already gone the second time
+            match fs::remove_file(path).await {
+                Err(e) if e.kind() == std::io::ErrorKind::NotFound => {}
+                res => try_!(res),
+            }
             self.delete_object_side_files(&input.bucket, &key)?;
 
             let deleted_object = DeletedObject {
